@@ -74,8 +74,8 @@ def explain(ctx, label, seed, n, ca, cb):
 
 
 def run(ctx, rec):
-    n = 40 if ctx.quick else 250
-    nproc = 6 if ctx.quick else 16
+    n = 40 if ctx.quick else 500
+    nproc = 6 if ctx.quick else 24
     seed = ctx.seed * 1000 + ctx.shard
     cfgs = configs(ctx, nproc)
     logs = []
